@@ -139,6 +139,8 @@ def run_case(case, oracle="plain"):
     world.events = _Quiet()
     pid = "C12" if oracle == "plain" else "C13"
 
+    state_refused = []
+
     def benign_script(k):
         # loss within the retry budget (retries=1), in-time delay, two fragments
         m = k % 3
@@ -265,6 +267,36 @@ def run_case(case, oracle="plain"):
                                                    f"{fam}/{var}/{tr} fill={case['fill']} k={k}: {how}"
                                                    f"[{st_.id_!r}] = {got!r:.120}, own registers {own.hex()} decode to "
                                                    f"{_show(ref):.160}"))
+                            return
+                if fam in ("ET", "DT") and k % 8 == 0 and oracle == "plain":
+                    # bulk read_settings_data() of ET/DT: every plain numeric setting is the decode of ITS OWN registers,
+                    # also when the inverter refuses one of the settings in the middle of the table
+                    plain_cls = ("Integer", "IntegerS", "Long", "LongS", "Decimal", "Voltage", "Current", "CurrentS",
+                                 "ByteH", "ByteL", "Byte")
+                    sts = [x for x in inv.settings() if type(x).__name__ in plain_cls
+                           and dev.is_valid(x.offset, max(1, (x.size_ + 1) // 2))]
+                    refused_id = None
+                    if len(sts) > 3 and not state_refused:
+                        x = sts[(k // 8) % (len(sts) - 1)]
+                        dev.exc_map.append((x.offset, x.offset + max(1, (x.size_ + 1) // 2) - 1, 2))
+                        refused_id = x.id_
+                        state_refused.append(refused_id)
+                    listed = {x.id_: x for x in inv.settings()}
+                    sdata = await inv.read_settings_data()
+                    for sid_, st_ in listed.items():
+                        scls = type(st_).__name__
+                        if scls not in plain_cls or sid_ in state_refused or sid_ not in sdata \
+                                or not dev.is_valid(st_.offset, max(1, (st_.size_ + 1) // 2)):
+                            continue
+                        own = dev.get_bytes(st_.offset, (R.WIDTH[scls] + 1) // 2)[:R.WIDTH[scls]]
+                        ref = R.decode(scls, own, scale=getattr(st_, "scale", None))
+                        stats["values_checked"] += 1
+                        if not R.same(sdata[sid_], ref):
+                            violations.append(viol(f"C12:{fam}-settings:{scls}",
+                                                   f"{fam}/{var}/{tr} fill={case['fill']} k={k}: read_settings_data()"
+                                                   f"[{sid_!r}] = {sdata[sid_]!r}, own registers {own.hex()} (@{st_.offset}) "
+                                                   f"decode to {_show(ref)}"
+                                                   + (f" (the inverter refuses {state_refused[0]!r})" if state_refused else "")))
                             return
                 # own-register window through read_sensor for a rotating sample
                 if fam != "ES":
